@@ -209,7 +209,7 @@ pub fn langid_space(cfg: &Cfg, tag: &str, f: &ByteCheck<'_>) -> Stats {
     for k in 3..=cfg.pick(4, 5) {
         d.enumerate(&format!("reduced alphabet ({} tokens), {k} subtags, alternating '_' '-'", small.len()), &small, k, 0, b"");
     }
-    let n = cfg.pick(400_000, 5_000_000);
+    let n = cfg.pick(1_000_000, 5_000_000);
     d.strategy("G2 well-formed language ids, random case/separator masks (proptest)", &gen::s_langid_bytes(), cfg.seed, &format!("{tag}-g2"), n, |b| b.clone());
     d.strategy("G3 near-miss mutations (1-3 edits) of well-formed language ids (proptest)", &gen::s_near_miss_langid(), cfg.seed, &format!("{tag}-g3"), n, |b| b.clone());
     d.strategy("G2 long language ids, 5-16 variants, 60-150 bytes (proptest)", &gen::s_langid_long_bytes(), cfg.seed, &format!("{tag}-g2long"), n / 8, |b| b.clone());
@@ -265,7 +265,7 @@ pub fn locale_space(cfg: &Cfg, tag: &str, f: &ByteCheck<'_>) -> Stats {
         d.enumerate(&format!("'en-' + core alphabet ({} tokens), {k} subtags", core.len()), &core, k, b'-', b"en-");
     }
     d.enumerate("'en_' + core alphabet, 4 subtags, '_' separators", &core, 4, b'_', b"en_");
-    let n = cfg.pick(400_000, 8_000_000);
+    let n = cfg.pick(1_000_000, 8_000_000);
     d.strategy("G2 well-formed locales, all extension shapes, random case/separator masks (proptest)", &gen::s_ast(), cfg.seed, &format!("{tag}-g2"), n, |a| a.render());
     d.strategy("G3 near-miss mutations (1-3 edits) of well-formed locales (proptest)", &gen::s_near_miss(), cfg.seed, &format!("{tag}-g3"), n, |b| b.clone());
     d.strategy("G2 long locales: many variants, keywords and private tags, 100-400 bytes (proptest)", &gen::s_locale_long_bytes(), cfg.seed, &format!("{tag}-g2long"), n / 8, |b| b.clone());
